@@ -81,6 +81,14 @@ func c25Gen(rng *rand.Rand, tier string, w *bufio.Writer) {
 			}
 			id++
 		}
+		// a write fault whose rollback truncate fails too (a repaired writer must cope with that)
+		for t := 0; t < 3; t++ {
+			fmt.Fprintf(w, "case %d inject writetrunc %d\n", id, 3+rng.Intn(maxN-4))
+			for _, l := range all {
+				fmt.Fprintln(w, l)
+			}
+			id++
+		}
 		// short writes: the file may grow K more bytes during one victim batch (+ its Sync)
 		for _, k := range []int{0, 1, 15, 16, 17, 100, 400} {
 			fmt.Fprintf(w, "case %d short %d\n", id, k)
@@ -118,6 +126,8 @@ func c25Trace(in *bufio.Scanner, w *bufio.Writer) {
 					extra = []string{"-e", "inject=write:error=EIO:when=" + f[2]}
 				case "fsync":
 					extra = []string{"-e", "inject=fsync:error=EIO:when=" + f[2]}
+				case "writetrunc":
+					extra = []string{"-e", "inject=write:error=EIO:when=" + f[2], "-e", "inject=ftruncate:error=EIO:when=1"}
 				case "write2":
 					extra = []string{"-e", "inject=write:error=EIO:when=" + f[2], "-e", "inject=write:error=EIO:when=" + f[3]}
 				}
